@@ -435,7 +435,10 @@ func check(ctx *pbt.Ctx, c Case) error {
 	}
 
 	// ---- sign through the library's signing path only
-	tx := ref.ToLib(c.Tx)
+	// the object that gets signed is built field by field, a clone, a clone of a clone or parsed
+	// from the extended serialisation
+	tx, via := ref.ToLibViaSalt(c.Tx, int(c.Salt>>3%4))
+	ctx.Label("object=" + via)
 	signedIdx := []int{s}
 	var err error
 	// The unlocker objects are the caller's and may have served another key before: in a third of
